@@ -17,6 +17,12 @@ def main():
     target = sys.argv[1]
     payload = json.loads(sys.stdin.read() or "{}")
     modname, fn = target.split(":")
+    import signal
+
+    def _alarm(sig, frm):
+        raise TimeoutError("replay adapter exceeded its time budget")
+    signal.signal(signal.SIGALRM, _alarm)
+    signal.alarm(int(payload.get("budget_s", 240)))
     try:
         mod = importlib.import_module("replays." + modname)
         out = getattr(mod, fn)(payload)
